@@ -102,6 +102,13 @@ class Arr:
         return 'Arr(%s)' % ', '.join(repr(a) for a in self.axes)
 
 
+class RandIdx:
+    """A uniformly drawn integer index in [0, bound)."""
+
+    def __init__(self, bound):
+        self.bound = bound
+
+
 class Event:
     def __init__(self, kind, node, msg, **kw):
         self.kind, self.node, self.msg, self.kw = kind, node, msg, kw
@@ -310,6 +317,15 @@ class ShapeLifter(Lifter):
                 pos += 1
                 continue
             iv = self.ev(e, env, fn, depth, owner)
+            if isinstance(iv, RandIdx):
+                if not eq(iv.bound, axes[pos].size):
+                    self.note('shape', n,
+                              '`%s` draws a random row index below %s from '
+                              'an array with %s rows: only part of the rows '
+                              'can ever be selected' % (
+                                  U(n)[:50], iv.bound, axes[pos].size))
+                pos += 1
+                continue
             if isinstance(iv, Arr) and iv.ndim == 1:
                 fancy.append((len(out), iv.axes[0]))
                 out.append(('fancy', iv.axes[0]))
@@ -688,14 +704,32 @@ class ShapeLifter(Lifter):
                         return TOP
                 return self.concat(parts) if parts else TOP
             return TOP
-        if f == 'np.broadcast_to' and len(n.args) >= 2:
-            sh = ev(n.args[1])
+        if f == 'np.broadcast_to' and n.args:
+            sh = ev(n.args[1]) if len(n.args) >= 2 else None
+            for k in n.keywords:
+                if k.arg == 'shape':
+                    sh = ev(k.value)
+            src = ev(n.args[0])
             if isinstance(sh, (Tup, tuple)):
                 dims = [self.as_int(x) for x in sh]
                 if all(d is not None for d in dims):
-                    return Arr([Ax(d) for d in dims])
+                    out = Arr([Ax(d) for d in dims])
+                    if isinstance(src, Arr):
+                        self.broadcast(out, src, n, '`%s`' % U(n)[:60],
+                                       into=True)
+                    return out
             return TOP
         if f == 'range':
+            return TOP
+        if isinstance(n.func, ast.Attribute) and n.func.attr == 'integers' \
+                and n.args:
+            hi = ev(n.args[-1]) if len(n.args) <= 2 else None
+            for k in n.keywords:
+                if k.arg == 'high':
+                    hi = ev(k.value)
+            b = self.as_int(hi)
+            if b is not None:
+                return RandIdx(b)
             return TOP
         if isinstance(n.func, ast.Attribute) and n.func.attr in (
                 'normal', 'lognormal', 'uniform', 'standard_normal'):
